@@ -252,11 +252,26 @@ impl C07 {
                         arr.index(); // idempotent
                     }
                 }
+                let use_into = rng.chance(1, 2);
+                let (os, oe) = N::from_pair(rng.below(2 * n as u64 + 40), 1 + rng.below(30));
                 let got = guard(|| {
-                    let mut v: Vec<(N, N, u64)> = arr.find(qs..qe).iter().map(|e| (e.interval().start, e.interval().end, *e.data())).collect();
+                    let mut v: Vec<(N, N, u64)> = if use_into {
+                        // find_into with a reused buffer that still holds the hits of another query
+                        let mut buf = Vec::new();
+                        if os < oe {
+                            arr.find_into(os..oe, &mut buf);
+                        }
+                        arr.find_into(qs..qe, &mut buf);
+                        buf.iter().map(|e| (e.interval().start, e.interval().end, *e.data())).collect()
+                    } else {
+                        arr.find(qs..qe).iter().map(|e| (e.interval().start, e.interval().end, *e.data())).collect()
+                    };
                     v.sort();
                     v
                 });
+                if use_into {
+                    ctx.count("array_find_into_reused_buffer", 1);
+                }
                 ctx.eval(1);
                 match got {
                     Ok(v) => {
@@ -275,6 +290,36 @@ impl C07 {
                 }
                 let qclass = (exp.len().min(3), exp.len() == shadow.len());
                 ctx.shape(shadow.len() >= 2, &("C07", N::NAME, order, size_class(shadow.len()), qclass));
+            }
+        }
+        // FromIterator constructors must build the same collections
+        if !shadow.is_empty() && shadow.len() <= 200 {
+            let avl2: IntervalTree<N, u64> = shadow.iter().map(|&(s, e, d)| (s..e, d)).collect();
+            let arr2: ArrayBackedIntervalTree<N, u64> = shadow.iter().map(|&(s, e, d)| (s..e, d)).collect();
+            let (qs, qe) = (shadow[0].0, shadow[shadow.len() / 2].1.max(shadow[0].1));
+            if qs < qe {
+                let exp = exp_after(&shadow, qs, qe);
+                let g1 = guard(|| {
+                    let mut v: Vec<(N, N, u64)> = avl2.find(qs..qe).map(|e| (e.interval().start, e.interval().end, *e.data())).collect();
+                    v.sort();
+                    v
+                });
+                // from_iter of the array tree indexes it: the query must be answered without an explicit index()
+                let g2 = guard(|| {
+                    let mut v: Vec<(N, N, u64)> = arr2.find(qs..qe).iter().map(|e| (e.interval().start, e.interval().end, *e.data())).collect();
+                    v.sort();
+                    v
+                });
+                ctx.eval(2);
+                if g1.as_ref() != Ok(&exp) || g2.as_ref() != Ok(&exp) {
+                    ctx.violation("tree:from_iter-differs", desc(format!("from_iter trees: avl {:?} array {:?} expected {:?}", g1, g2, exp), &ops_log));
+                    return;
+                }
+                let inv = avl2.verif_invariants();
+                if inv.nodes != shadow.len() || !inv.balanced || !inv.max_ok || !inv.order_ok || !inv.height_ok {
+                    ctx.violation("avl:invariant:from_iter", desc(format!("{:?}", inv), &ops_log));
+                    return;
+                }
             }
         }
         ctx.count(&format!("histories:{}", N::NAME), 1);
@@ -337,6 +382,7 @@ impl C07 {
         let nref = rng.range(1, 4);
         let refs: Vec<String> = (0..nref).map(|i| format!("chr{}", i + 1)).collect();
         let mut map: AnnotMap<String, u64> = AnnotMap::new();
+        let mut map_loc: AnnotMap<String, Contig<String, ReqStrand>> = AnnotMap::new();
         let mut shadow: Vec<(String, isize, isize, u64)> = vec![];
         let n = rng.range(0, ctx.by_tier(20, 120, 400));
         let mut log: Vec<String> = vec![];
@@ -346,6 +392,11 @@ impl C07 {
             let len = rng.range(1, 40);
             let strand = if rng.chance(1, 2) { ReqStrand::Forward } else { ReqStrand::Reverse };
             let loc = Contig::new(r.clone(), start, len, strand);
+            // second map filled through insert_loc (the location is the payload)
+            if let Err(p) = guard(|| map_loc.insert_loc(loc.clone())) {
+                ctx.violation(&format!("annot:insert_loc-panic:{}", panic_site(&p)), Obj::new().d("log", &log).s("what", &p).done());
+                return;
+            }
             if let Err(p) = guard(|| map.insert_at(i as u64, &loc)) {
                 ctx.violation(&format!("annot:insert-panic:{}", panic_site(&p)), Obj::new().d("log", &log).s("what", &p).done());
                 return;
@@ -381,6 +432,19 @@ impl C07 {
                             ctx.violation(&format!("annot:find-panic:{}", panic_site(&p)), Obj::new().s("what", &p).done());
                             return;
                         }
+                    }
+                    // the insert_loc map must report the same intervals
+                    let got2 = guard(|| {
+                        let mut v: Vec<(isize, isize)> = map_loc.find(&q).map(|e| (e.interval().start, e.interval().end)).collect();
+                        v.sort();
+                        v
+                    });
+                    let mut exp2: Vec<(isize, isize)> = exp.iter().map(|x| (x.1, x.2)).collect();
+                    exp2.sort();
+                    ctx.eval(1);
+                    if got2.as_ref() != Ok(&exp2) {
+                        ctx.violation("annot:insert_loc-map-differs", Obj::new().d("last_ops", &&log[log.len().saturating_sub(10)..]).s("what", &format!("find({}:{}..{}) = {:?} expected {:?}", qr, qs, qe, got2, exp2)).done());
+                        return;
                     }
                     ctx.shape(true, &("C07", "annot", nref, size_class(shadow.len()), exp.len().min(3), qr == "chrUn"));
                 }
